@@ -705,6 +705,10 @@ class _StreamModel:
         if isinstance(e, ast.Call) and ((isinstance(e.func, ast.Attribute) and e.func.attr in _INT_METHODS)
                                         or (isinstance(e.func, ast.Name) and e.func.id in _PURE_CALLS)):
             return [('other',)]                                 # a number / truth value, not bytes
+        if isinstance(e, ast.IfExp):
+            d = env.decide(e.test)                              # (_run_steps forks the path state on undecided conditions)
+            if d is not None:
+                return self.pieces(env, e.body if d else e.orelse)
         if isinstance(e, ast.BinOp) and isinstance(e.op, ast.Add):
             return self.pieces(env, e.left) + self.pieces(env, e.right)
         if isinstance(e, ast.Subscript) and isinstance(e.slice, ast.Slice):
@@ -979,8 +983,10 @@ class _StreamModel:
                 return R
             starts = [p[1] for p in ps if p[0] == 'buf']
             origin, ends = None, None
-            if len(ps) == 1 and ps[0][0] == 'buf' and ps[0][3] and (len(extra) == 2 or env.prove_eq(ps[0][2], self.buffer_end(env))):
+            if len(ps) == 1 and ps[0][0] == 'buf' and ps[0][3]:
                 origin, ends = ps[0][1], [ps[0][2]]
+                if extra and isinstance(extra[0], Lin) and not (extra[0].is_const and extra[0].c < 0):
+                    starts = [origin + extra[0]]                # a start argument counts from the first byte of the slice
         if ends is not None:
             # bytes.find(sub, start, end): the WHOLE match lies in [start, end) -- a failed search says nothing
             # about a delimiter that starts before `end` and ends behind it
@@ -1061,13 +1067,13 @@ class _StreamModel:
             for (R, bv, st, ends) in g['finds']:
                 if not self._same(bv, bufval) or not _is_negative(env, R):
                     continue
+                if not env.prove_le(st, lo):      # a search that started behind the first yielded byte does not vouch for this hand-out
+                    continue
                 need = hi + self.dl - Lin.const(1)
                 short_of = [e for e in ends if not env.prove_le(need, e)]
-                ok = not short_of and env.prove_le(st, lo)
-                if short_of:
-                    msg = '%r byte(s) lie between the end of the yielded region and the end of the searched range; not provably >= len(delimiter) - 1' % (short_of[0] - hi,)
-                else:
-                    msg = 'the failed search started %r byte(s) behind the first yielded byte (not provably <= 0)' % (st - lo,)
+                ok = not short_of
+                msg = '%r byte(s) lie between the end of the yielded region and the end of the searched range; not provably >= len(delimiter) - 1' % (
+                    (short_of[0] - hi) if short_of else 0,)
                 self.v.note(self.f, 'delimiter tail kept @%s' % unparse(s),
                             'when the delimiter was not found in the searched range of the buffered data, an early hand-out stays at least len(delimiter) - 1 bytes '
                             'short of the end of that range (the end of the buffer and, if given, the end bound of the search)',
